@@ -454,6 +454,17 @@ class Interp:
         self.held.pop(o["name"], None)
         return {}
 
+    def op_kill_tracker(self, th, o):
+        trk = sys.modules["loky.backend.resource_tracker"]._resource_tracker
+        k = rt.RT.kernel
+        pid = trk._pid
+        if pid is None:
+            return {"skipped": True}
+        rt.RT.sched.yield_("kill")
+        k.deliver(k.procs[pid], sk.SIGKILL)
+        k.fault_counts["kill:tracker:9"] += 1
+        return {"pid": pid}
+
     def op_tracked_op(self, th, o):
         """a tracked operation: creating a loky Lock registers with the tracker."""
         from loky.backend import get_context
